@@ -431,6 +431,26 @@ package adt
 //@   requires v != nil
 //@   ensures [min] v.ArcType == old(v.ArcType) || (t < old(v.ArcType) && old(v.ArcType) != ArcNotPresent && v.ArcType == t)
 //@   ensures [tighten] t < old(v.ArcType) && old(v.ArcType) != ArcNotPresent && old(v.ArcType) != ArcPending ==> v.ArcType == t
+//@   assigns v.ArcType
+
+// (P) C05/C01: a struct has one arc per label. getArc returns the existing arc
+// for f (its arc type merged with the new mode by updateArcType: the minimum),
+// or appends a fresh arc for f with exactly the requested mode (or "not
+// present" when the field set is frozen) only if no existing arc has that
+// label; no other arc is replaced, dropped or relabelled (so labels stay unique).
+//@ spec func arcPtrsOK(v *Vertex) bool { forall k int :: 0 <= k && k < len(v.Arcs) ==> v.Arcs[k] != nil && allocated(v.Arcs[k]) }
+//@ func (*nodeContext).getArc
+//@   requires n != nil && n.node != nil && n.ctx != nil && arcPtrsOK(n.node)
+//@   loop 0 invariant -1 <= rangeindex && rangeindex < len(v.Arcs)
+//@   loop 0 invariant forall k int :: 0 <= k && k <= rangeindex ==> v.Arcs[k].Label != f
+//@   ensures [label] result0 != nil && result0.Label == f
+//@   ensures [existing] !result1 ==> exists k int :: 0 <= k && k < old(len(n.node.Arcs)) && result0 == old(n.node.Arcs[k])
+//@   ensures [merge] !result1 ==> result0.ArcType == old(result0.ArcType) || (mode < old(result0.ArcType) && old(result0.ArcType) != ArcNotPresent && result0.ArcType == mode)
+//@   ensures [newlen] result1 ==> len(n.node.Arcs) == old(len(n.node.Arcs)) + 1
+//@   ensures [newlast] result1 ==> n.node.Arcs[old(len(n.node.Arcs))] == result0
+//@   ensures [newmode] result1 ==> (result0.ArcType == mode || result0.ArcType == ArcNotPresent) && result0.Parent == n.node
+//@   ensures [newonlyifabsent] result1 ==> forall k int :: 0 <= k && k < old(len(n.node.Arcs)) ==> old(n.node.Arcs[k]).Label != f
+//@   ensures [keep] forall k int :: 0 <= k && k < old(len(n.node.Arcs)) ==> n.node.Arcs[k] == old(n.node.Arcs[k]) && n.node.Arcs[k].Label == old(n.node.Arcs[k].Label)
 //@   assigns heap
 
 // lemmas: the accumulators are commutative, associative and idempotent
